@@ -130,6 +130,7 @@ fn c18<K: Kmer + Send + Sync>(spec: &GraphSpec, threads: usize, gamma: f64) {
 }
 
 fn main() {
+    simcore::driver::install_logger();
     let args: Vec<String> = std::env::args().collect();
     if args.len() < 3 {
         eprintln!("usage: sim-miri <c19|c18> <case_seed>");
